@@ -531,9 +531,12 @@ func closeAllRange(c *Ctx, id string) {
 		if fn.Parent() != nil || !closesStreams(w, fn) || fn.Signature.Recv() == nil || recvTypeName(fn.Signature.Recv().Type()) != "stream" {
 			continue
 		}
+		if isGoWorker(w, fn) {
+			continue // judged as part of the function that spawns it
+		}
 		// only the function that contains the calls itself or in its direct closures
 		direct := false
-		for _, f := range withAnon(fn) {
+		for _, f := range withWorkers(fn) {
 			allInstrs(f, func(in ssa.Instruction) {
 				if cc := callOf(in); cc != nil && isInvokeOf(cc, "Client", "CloseStream") {
 					direct = true
@@ -544,7 +547,7 @@ func closeAllRange(c *Ctx, id string) {
 			continue
 		}
 		c.see(fn)
-		for _, f := range withAnon(fn) {
+		for _, f := range withWorkers(fn) {
 			allInstrs(f, func(in ssa.Instruction) {
 				cc := callOf(in)
 				if cc == nil || !isInvokeOf(cc, "Client", "CloseStream") {
@@ -639,8 +642,9 @@ func c13r10(c *Ctx, id string) {
 	// store closeWithCancel ← true in the cancel branch
 	ok := false
 	allInstrs(start, func(in ssa.Instruction) {
-		st, isSt := in.(*ssa.Store)
-		if !isSt || !strings.HasSuffix(w.Origin(st.Addr), ".closeWithCancel") || w.Origin(st.Val) != "const(true)" {
+		// a plain bool field or an atomic.Bool
+		ff, _, fval := flagWrite(in)
+		if ff == nil || ff.Name() != "closeWithCancel" || w.Origin(fval) != "const(true)" {
 			return
 		}
 		inBranch := false
@@ -670,7 +674,11 @@ func c13r10(c *Ctx, id string) {
 		allInstrs(fn, func(in ssa.Instruction) {
 			if cc := callOf(in); cc != nil && isInvokeOf(cc, "Stream", "Close") && rootFn(fn).Pkg != nil && rootFn(fn).Pkg.Pkg.Path() == modPath {
 				got := w.Origin(cc.Args[0])
-				c.Check(strings.HasSuffix(got, ".closeWithCancel"), id, "cancel-arg@"+fname(fn), in.Pos(), "Stream.Close("+got+")", "Stream.Close receives "+got+" instead of the cancel flag")
+				isFlag := strings.HasSuffix(got, ".closeWithCancel")
+				if ff, _ := flagRead(unwrap(cc.Args[0])); ff != nil && ff.Name() == "closeWithCancel" {
+					isFlag = true
+				}
+				c.Check(isFlag, id, "cancel-arg@"+fname(fn), in.Pos(), "Stream.Close("+got+")", "Stream.Close receives "+got+" instead of the cancel flag")
 			}
 		})
 	}
@@ -692,7 +700,7 @@ func closeAllWait(c *Ctx, id string, fn *ssa.Function) {
 	})
 	var bad []string
 	nAdd, nWait, nDone := 0, 0, 0
-	for _, f := range withAnon(fn) {
+	for _, f := range withWorkers(fn) {
 		allInstrs(f, func(in ssa.Instruction) {
 			cc := callOf(in)
 			if cc == nil {
@@ -732,4 +740,41 @@ func isCountOf(w *World, v ssa.Value, recv string) bool {
 	}
 	m, r := csmapMethod(call.Common())
 	return m == "Count" && r != nil && w.Origin(r) == recv
+}
+
+// withWorkers: fn, its closures, and the module functions they start with `go` (with their closures): a goroutine body
+// written as a method instead of a literal.
+func withWorkers(fn *ssa.Function) []*ssa.Function {
+	out := withAnon(fn)
+	seen := map[*ssa.Function]bool{}
+	for _, f := range out {
+		seen[f] = true
+	}
+	for _, f := range withAnon(fn) {
+		allInstrs(f, func(in ssa.Instruction) {
+			if g, ok := in.(*ssa.Go); ok {
+				if cal := g.Common().StaticCallee(); cal != nil && cal.Pkg == fn.Pkg && cal.Parent() == nil && !seen[cal] {
+					for _, a := range withAnon(cal) {
+						seen[a] = true
+						out = append(out, a)
+					}
+				}
+			}
+		})
+	}
+	return out
+}
+
+// isGoWorker: fn is a top-level function that is only ever started with `go`.
+func isGoWorker(w *World, fn *ssa.Function) bool {
+	cs := w.callersOf(fn)
+	if len(cs) == 0 || len(w.usesAsValue(fn)) > 0 {
+		return false
+	}
+	for _, c := range cs {
+		if _, isGo := c.Call.(*ssa.Go); !isGo {
+			return false
+		}
+	}
+	return true
 }
